@@ -355,6 +355,33 @@ theorem slice_pairs_cov (d : RV τ ν υ) (c : Cov ν) (hu : d.unc = .cov c)
         simp only [Option.bind_some]
         exact entry_gather sel c d.t.length hc hrow hsel a b
 
+/-- the nondeterministic model is not vacuous: for a total transitive order on times every well-shaped input
+(with a usable `t_ref` argument) has an accepted sorting permutation, i.e. a run of the model to which all the
+theorems above apply -/
+theorem init_accepts_some_permutation (htrans : ∀ a b c, le a b = true → le b c = true → le a c = true)
+    (htotal : ∀ a b, (le a b || le b a) = true)
+    (ts : List τ) (rvs : List ν) (unc : Unc ν) (uRv uErr : υ) (clean : Bool) (tref : TRefArg τ)
+    (hs : shapeOk ts rvs unc = true) (htr : tref ≠ .notTime)
+    (hne : tref = .default → maskSel (keepMask fint finv clean ts rvs unc) ts ≠ []) :
+    ∃ perm d, init fint finv le ts rvs unc uRv uErr clean tref perm = .ok d := by
+  obtain ⟨perm, hv⟩ := exists_validPerm le htrans htotal (maskSel (keepMask fint finv clean ts rvs unc) ts)
+  refine ⟨perm, ?_⟩
+  have hv' := hv
+  simp only [validPerm, Bool.and_eq_true] at hv'
+  have hp := gather_perm perm _ (isPermOfRange_perm _ _ hv'.1)
+  unfold init
+  simp only [hs, hv, Bool.not_true, Bool.false_eq_true, if_false]
+  cases tref with
+  | default =>
+    cases hg : gather perm (maskSel (keepMask fint finv clean ts rvs unc) ts) with
+    | nil =>
+      rw [hg] at hp
+      exact absurd hp.symm.eq_nil (hne rfl)
+    | cons m r => simp [resolveTRef]
+  | disabled => simp [resolveTRef]
+  | explicit x => simp [resolveTRef]
+  | notTime => exact absurd rfl htr
+
 /-! ### non-vacuity: concrete inputs on which the model runs and the hypotheses hold -/
 
 section Examples
